@@ -252,12 +252,15 @@ func (a *sideEffectActor) InboxForwarding(c context.Context, inboxIRI *url.URL, 
 		}
 		// WARNING: Not Unlocked
 		t, err := a.db.Get(c, iri)
-		if err == nil && t == nil {
-			err = ErrNotFound
-		}
 		if err != nil {
 			a.db.Unlock(c, iri)
 			return err
+		}
+		if t == nil {
+			// Nothing is stored under an id this server owns: it is not
+			// a collection, the other addressees still count.
+			a.db.Unlock(c, iri)
+			continue
 		}
 		if streams.IsOrExtendsActivityStreamsOrderedCollection(t) {
 			if im, ok := t.(orderedItemser); ok {
